@@ -5,6 +5,7 @@ import (
 	"errors"
 	"fmt"
 	"math"
+	"sync"
 	"strconv"
 	"strings"
 	"time"
@@ -41,8 +42,18 @@ const (
 	tAny
 )
 
-var numNames = []string{"n1", "n2", "n3", "n4", "n1", "n2", "fz", "fnz"}
-var strNames = []string{"s1", "s2", "s3"}
+// some names use non-ASCII identifier characters: a letter, a combining mark and
+// an Arabic-Indic digit (identifier parts that are not identifier starts)
+var numNames = []string{"n1", "n2", "n3", "n4", "n1", "n2", "fz", "fnz", "名前", "x\u0662"}
+var strNames = []string{"s1", "s2", "s3", "cafe\u0301"}
+
+// texts that fail in the scanner or parser in many different ways (every
+// diagnostic message of the library is reachable from one of them)
+var brokenTexts = []string{"2_", "[1a]", "1__0", "[2_, 1]", "1_", "0.5_1", "'abc", "\"x\\", "1e", "1e+", "[1,, 2]", "f_id(1,)", "b1 ? 1", "b1 ? 1 :", "(1", "1 2", "(1 2",
+	"@", "o1.", "o1..a", "$", "1 +", "[", "f_id(", "z1!.", "'\\u12'", "'\\xZ'", "3abc", "[1 2]", "f_id(1 2)", "n1 n2", "1 ? ", ")", "]", "a ? b", "x y z", "'a\nb'", "typeof", "!", "~", "n1 +* 2"}
+
+// texts whose first character is an identifier part but not an identifier start
+var badUnicodeTexts = []string{"\u0662 * 3", "\u0301a + 1", "\u0662x", "1 + \u0663", "n1 + \u0301"}
 var localNames = []string{"$a", "$b", "$c"}
 
 func (g *gen) pick(xs []string) string { return xs[g.s.Intn(len(xs))] }
@@ -86,6 +97,12 @@ func genDeep(s *Stream, cfg genCfg) string {
 func genFormula(s *Stream, cfg genCfg) string {
 	if cfg.maxNodes >= 20 && s.Intn(14) == 0 {
 		return genDeep(s, cfg)
+	}
+	if s.Intn(40) == 0 {
+		return badUnicodeTexts[s.Intn(len(badUnicodeTexts))]
+	}
+	if s.Intn(30) == 0 {
+		return brokenTexts[s.Intn(len(brokenTexts))]
 	}
 	g := &gen{s: s, cfg: cfg, budget: 1 + s.Intn(cfg.maxNodes)}
 	var parts []string
@@ -460,16 +477,26 @@ func genDataSpec(s *Stream) dataSpec {
 
 // hostLog records what host functions saw; one per data map (so per task).
 type hostLog struct {
+	// a host function may be called from goroutines the library itself starts; this
+	// mutex orders those calls for the race detector. One log belongs to one task,
+	// so it never adds an ordering between tasks.
+	mu     sync.Mutex
 	calls  []string
 	n      int // host invocations since reset
 	failAt int // the failAt-th invocation returns an injected error (0: none)
 	fired  int
 }
 
-func (h *hostLog) add(s string) { h.calls = append(h.calls, s) }
+func (h *hostLog) add(s string) {
+	h.mu.Lock()
+	h.calls = append(h.calls, s)
+	h.mu.Unlock()
+}
 
 // tick counts an invocation and says whether the fault plan makes it fail.
 func (h *hostLog) tick() error {
+	h.mu.Lock()
+	defer h.mu.Unlock()
 	h.n++
 	if h.failAt != 0 && h.n == h.failAt {
 		h.fired++
@@ -518,6 +545,7 @@ func (d dataSpec) build(log *hostLog, loc *time.Location) map[string]interface{}
 		"s1": strs[(d.Nums[4]+1000)%len(strs)], "s2": strs[(d.Nums[5]+1000)%len(strs)], "s3": strs[(d.Nums[6]+1000)%len(strs)],
 		"b1": d.Flags[0]%2 == 0,
 		"fz": float64(0), "fnz": math.Copysign(0, -1),
+		"名前": d.num(2), "x\u0662": d.num(3), "cafe\u0301": strs[(d.Nums[2]+1000)%len(strs)],
 		"z1": nil,
 		"t1": time.Unix(int64(d.Nums[0])*86400*30+int64(d.Nums[1])*977, int64(d.Nums[2]+1000)*1000).In(loc),
 		"o1": map[string]interface{}{
